@@ -467,6 +467,8 @@ def _type_guarded(node, target):
 
 
 def run(ctx, chk):
+    from . import C06
+    C06.r1b_try_census(ctx, chk, "C09.3b")
     r123_check_game(ctx, chk)
     r4_check_next_states(ctx, chk)
     r5_missing_transitions(ctx, chk)
